@@ -76,6 +76,8 @@ def run(ctx: Ctx):
     ctx.attempt("R6.4", lambda: r6_4(ctx))
     ctx.attempt("R6.5", lambda: r6_5(ctx, E.R))
     ctx.attempt("R6.7", lambda: r6_7(ctx))
+    # R6.8 (second half, independent of how the acceptance is spelled): on no path of the loop is a proposal with a NaN energy kept
+    ctx.attempt("R6.8", lambda: c09.nan_never_accepted(ctx, rule="R6.8"))
     # R6.6: proposal constructors and the no-input-mutation rule
     L = c09.Loop(ctx)
     ctx.attempt("R6.6", lambda: c09.r9_3(ctx, L, rule="R6.6"))
